@@ -57,6 +57,13 @@ class Evaluator:
             if e.id in self.env:
                 return self.env[e.id]
             raise Unsupported(e, "unbound")
+        if isinstance(e, ast.Attribute):
+            k = ast.unparse(e)
+            if k in self.env:
+                return self.env[k]
+            raise Unsupported(e, "unbound attribute")
+        if isinstance(e, (ast.Tuple, ast.List, ast.Set)):
+            return tuple(self.ev(x) for x in e.elts)
         if isinstance(e, ast.UnaryOp):
             v = self.ev(e.operand)
             if isinstance(e.op, ast.Not):
@@ -100,6 +107,10 @@ class Evaluator:
                     ok = left is right
                 elif isinstance(op, ast.IsNot):
                     ok = left is not right
+                elif isinstance(op, ast.In):
+                    ok = left in right
+                elif isinstance(op, ast.NotIn):
+                    ok = left not in right
                 else:
                     raise Unsupported(e)
                 if not ok:
@@ -215,7 +226,17 @@ class Evaluator:
             if isinstance(tgt, ast.Name) and st.value is not None:
                 self.env[tgt.id] = self.ev(st.value)
                 return None
+            if isinstance(tgt, ast.Attribute) and st.value is not None:
+                self.env[ast.unparse(tgt)] = self.ev(st.value)
+                return None
             raise Unsupported(st)
+        if isinstance(st, ast.AugAssign):
+            k = st.target.id if isinstance(st.target, ast.Name) else ast.unparse(st.target) if isinstance(st.target, ast.Attribute) else None
+            if k is None or k not in self.env:
+                raise Unsupported(st)
+            binop = ast.BinOp(left=st.target, op=st.op, right=st.value)
+            self.env[k] = self.ev(binop)
+            return None
         raise Unsupported(st)
 
 
